@@ -89,6 +89,10 @@ MUTATIONS = [
      "        if self.get_app_state() == AppState.RUNNING and self._process is not None:\n            self._process.kill()"),
     ("c20-double-cleanup-on-timeout", "C20", "application/localapp.py",
      "        except TimeoutExpired:\n            self.cancel()", "        except TimeoutExpired:\n            self.cancel()\n            self.clean_up()"),
+    ("c20-web-rules-inverted", "C20", "application/webapp.py",
+     "        if self._obey_rules:\n            if msg is None:", "        if not self._obey_rules:\n            if msg is None:"),
+    ("c20-web-custom-message-dropped", "C20", "application/webapp.py",
+     "                raise RuleViolationError(msg)", "                raise RuleViolationError(\"The user guidelines would be violated\")"),
     ("c01-del-forgets-bonds", "C01", "structure/atoms.py",
      "                self._bonds = self._bonds[mask]\n        else:\n            raise TypeError(f\"Index must be integer",
      "                pass\n        else:\n            raise TypeError(f\"Index must be integer"),
